@@ -972,8 +972,13 @@ class DestHandler:
             and self._params.acked_params.nak_activity_counter + 1
             == self._params.remote_cfg.nak_timer_expiration_limit
         ):
-            self._declare_fault(ConditionCode.NAK_LIMIT_REACHED)
-            return
+            if (
+                self._declare_fault(ConditionCode.NAK_LIMIT_REACHED)
+                != FaultHandlerCode.IGNORE_ERROR
+            ):
+                return
+            # The fault is ignored: the NAK sequence is issued again and the activity counter keeps
+            # counting, so the limit is not declared again by every following call.
         # This is not the first NAK issuance and the timer expired.
         max_segments_in_one_pdu = get_max_seg_reqs_for_max_packet_size_and_pdu_cfg(
             self._params.remote_cfg.max_packet_len, self._params.pdu_conf
